@@ -93,3 +93,44 @@ def rezone_utc_preserves(p):
     hp = hash(p)
     hash_lemma(hq, hp)
     assert q == p and hq == hp and dlen(q - p) == 0
+
+
+def single_month_step(p):
+    q = p.add_months(1)
+    runmin_def(midx(p), p._day_of_month, 0, 1)
+    assert midx(q) == midx(p) + 1
+    assert q._day_of_month == min(p._day_of_month, dim_idx(midx(p) + 1))
+    r = p.add_months(-1)
+    runmin_def(midx(p), p._day_of_month, 0, -1)
+    assert midx(r) == midx(p) - 1
+    assert r._day_of_month == min(p._day_of_month, dim_idx(midx(p) - 1))
+
+
+def months_compose(p, n):
+    assume(n >= 1)
+    a = p.add_months(n + 1)
+    b1 = p.add_months(n)
+    b = b1.add_months(1)
+    runmin_def(midx(p), p._day_of_month, n, 1)
+    runmin_def(midx(b1), b1._day_of_month, 0, 1)
+    assert midx(a) == midx(b) and a._day_of_month == b._day_of_month
+    assert a == b
+    c = p.add_months(-n - 1)
+    e1 = p.add_months(-n)
+    e = e1.add_months(-1)
+    runmin_def(midx(p), p._day_of_month, n, -1)
+    runmin_def(midx(e1), e1._day_of_month, 0, -1)
+    assert midx(c) == midx(e) and c._day_of_month == e._day_of_month
+
+
+def months_via_add(p, d):
+    assume(months_only(d) and d._months != 0)
+    q = p + d
+    r = p.add_months(d._months)
+    assert midx(q) == midx(r)
+
+
+def leap_day_plus_year(p):
+    assume(p._month_of_year == 2 and p._day_of_month == 29)
+    q = p + Duration(years=1)
+    assert q._month_of_year == 2 and q._day_of_month == dim(p._year + 1, 2)
